@@ -11,7 +11,7 @@ def M(id, props, what, *edits):
 
 
 # ---- path-data parsing (C01, C09, C17) ------------------------------------------------------------------
-M("inline-close-not-reset", ["C01"], "stale inline_close after a close command",
+M("inline-close-not-reset", ["C09"], "stale inline_close after a close command",
   ("                self.parser.closed(relative=cmd.islower())\n                self.inline_close = None\n", "                self.parser.closed(relative=cmd.islower())\n"))
 M("hv-axes-swapped-rel", ["C01", "C17"], "relative V uses x offset axis",
   ("                        Point(start_pos.x, start_pos.y + y_points[index]),", "                        Point(start_pos.x + y_points[index], start_pos.y),"))
@@ -27,7 +27,7 @@ M("smooth-quad-no-reflect-chain", ["C01", "C17"], "T after T uses current point"
   ("            control1 = self._smooth_point_of(QuadraticBezier)", "            control1 = self._smooth_point_of(QuadraticBezier) if not self._segments[-1].smooth else self.current_point"))
 M("move-extra-pairs-as-moves", ["C01"], "extra pairs after M become moves",
   ("                while self._more():\n                    coord = self._coord()\n                    self.parser.line(coord, relative=False)", "                while self._more():\n                    coord = self._coord()\n                    self.parser.move(coord, relative=False)"))
-M("drop-validate-close", ["C01", "C17", "C16"], "append no longer re-targets a close",
+M("drop-validate-close", ["C16"], "append no longer re-targets a close",
   ("        if isinstance(value, Close):\n            self._validate_close(index + 1)\n\n    def insert", "\n    def insert"))
 M("copy-drops-relative", ["C17", "C07"], "Linear.__copy__ loses the relative flag",
   ("        return self.__class__(self.start, self.end, relative=self.relative)", "        return self.__class__(self.start, self.end)"))
@@ -51,3 +51,37 @@ M("post-skew-centre", ["C04"], "post_skew about a centre forgets to translate ba
   ("            self.post_translate(-x, -y)\n            self.post_skew(angle_a, angle_b)\n            self.post_translate(x, y)", "            self.post_translate(-x, -y)\n            self.post_skew(angle_a, angle_b)\n            self.post_translate(x, -y)"))
 M("translate-pt-units", ["C04"], "pt treated as px in Length.value",
   ("        if self.units == \"pt\":\n            return self.amount * 4.0 / 3.0\n        if self.units == \"pc\":\n            return self.amount * 16.0\n        if self.units == \"em\":", "        if self.units == \"pt\":\n            return self.amount\n        if self.units == \"pc\":\n            return self.amount * 16.0\n        if self.units == \"em\":"))
+
+# ---- totality (C09) --------------------------------------------------------------------------------------
+M("h-operand-check-removed", ["C09"], "h without operand no longer raises ValueError",
+  ("""            elif cmd == "h":
+                while True:
+                    value = self._number()
+                    if value is None:
+                        raise ValueError
+""", """            elif cmd == "h":
+                while True:
+                    value = self._number()
+"""))
+M("coord-odd-count-silent", ["C09"], "_coord returns None instead of raising on a lone number",
+  ("        y = self._number()\n        if y is None:\n            raise ValueError\n        return x, y", "        y = self._number()\n        if y is None:\n            return None\n        return x, y"))
+M("unknown-char-raises-keyerror", ["C09"], "unknown character raises KeyError instead of stopping",
+  ("            if match is None:\n                return None  # Did not match at command sequence.", "            if match is None:\n                raise KeyError(self.pathd[self.pos])"))
+M("q-operand-check-first-only", ["C09"], "Q checks only its first pair",
+  ("""                    if coord2 is None:
+                        coord2 = self.inline_close
+                        if coord2 is None:
+                            raise ValueError
+                    self.parser.quad(coord1, coord2, relative=False)""", """                    if coord2 is None:
+                        coord2 = self.inline_close
+                    self.parser.quad(coord1, coord2, relative=False)"""))
+M("close-after-error-dropped", ["C09"], "Z followed by a number drops the close again",
+  ("                more = self._more()\n                self.parser.closed(relative=cmd.islower())\n                self.inline_close = None\n                if more:\n                    raise ValueError", "                if self._more():\n                    raise ValueError\n                self.parser.closed(relative=cmd.islower())\n                self.inline_close = None"))
+M("arc-flag-check-removed", ["C09"], "absolute A accepts a missing flag again",
+  ("""                        self._coord(),
+                    )
+                    if sweep is None:
+                        raise ValueError
+""", """                        self._coord(),
+                    )
+"""))
